@@ -22,6 +22,7 @@ RULE = ("G-sim traces under heavy equal-timestamp pressure (tight mode: kernel s
         "carries both a launch and a start, or >= 2 copies of one type overlapping. Distinct = hash of files + ranks.")
 ASSUMPTIONS = ["well-formed + causally consistent regime (no activity starts before its launch call)",
                "launch names as documented in get_runtime_launch_events_query", "float tolerance 1e-9 relative for bandwidth sums"]
+FLOAT_KEYS = ["files"]          # fractional-time-unit workload class (hv/shard.py)
 PLAN = {"quick": {"shards": 16, "cases": 640, "timeout": 900}, "thorough": {"shards": 16, "cases": 8000, "timeout": 3400}}
 FLOORS = {"quick": {"distinct_nontrivial": 100, "queue_rows": 6000, "tied_instants": 300, "bw_rows": 1500, "counter_files": 150,
                     "counter_events_checked": 3000, "streams_judged": 500},
@@ -160,7 +161,7 @@ def run_case(case: Dict[str, Any], ctx: Any) -> core.CaseResult:
                 bykey = collections.defaultdict(list)
                 for e, k in copies:
                     a = e.ts - ld.min_ts
-                    bykey[k].append((a, a + max(e.dur, 1), float(e.args.get("memory bandwidth (GB/s)", 0.0))))
+                    bykey[k].append((a, a + (e.dur if e.dur != 0 else 1), float(e.args.get("memory bandwidth (GB/s)", 0.0))))
                 last_at = {}
                 for ts, pid, name, v in rows:
                     last_at[(name, ts)] = v
